@@ -85,6 +85,18 @@ Definition print_fam (nm : string) (arg v : sx) : option (res str) :=
         Some (if (free <=? 2000)%N then print_bitstring_bs (written_bs b (N.to_nat free))
               else Ok (print_bitstring b))
       else None
+  | SL [SBits tail], SBits b =>
+      (* bits of tail switched on behind the length with On(n) *)
+      if is "bitstring" then Some (print_bitstring_bs (on_bs b tail)) else None
+  | SL [SBits tail], SL _ =>
+      if is "addr" then
+        match addr_of_sx v with
+        | Some (AddrExtern b) => Some (Ok (print_msgaddr (AddrExtern (abs (on_bs b tail)))))
+        | Some (AddrVar any alen wc b) => Some (Ok (print_msgaddr (AddrVar any alen wc (abs (on_bs b tail)))))
+        | Some a => Some (Ok (print_msgaddr a))
+        | None => None
+        end
+      else None
   | SL [SBits pre; SBits tail], SBits b =>
       (* the value is what ReadBits returns after |pre| bits of a source holding
          pre ++ b ++ tail: stale bits of tail stay behind its length *)
